@@ -1,114 +1,20 @@
-(* string comparison: Go's byte-wise < on UTF-8 is code-point order, which is
-   UTF-16 code-unit order on strings without surrogate pairs *)
-From Coq Require Import ZArith Bool List Lia Zify.
+(* string comparison: calculateLessThan's loop over UTF-16 code units is the
+   comparison of 11.8.5 step 4 (since /repo commit b6ed2ef; before it otto compared
+   UTF-8 bytes, i.e. code points) *)
+From Coq Require Import ZArith Bool List Lia.
 From Otto Require Import Common.Double Common.Corr C05.Fp C05.Spec C05.Model.
 Import ListNotations.
 Open Scope Z_scope.
-Ltac Zify.zify_post_hook ::= Z.div_mod_to_equations.
 
-Definition cp_valid (c : Z) : Prop := 0 <= c <= 0x10FFFF.
-
-Ltac ltb_crush :=
-  repeat match goal with
-         | |- context [?x <? ?y] => destruct (Z.ltb_spec x y)
-         end;
-  try reflexivity; try (exfalso; lia).
-
-Lemma utf8_cp_lt : forall c d ra rb, 0 <= c -> c < d -> d <= 0x10FFFF ->
-  units_lt (utf8_of_cp c ++ ra) (utf8_of_cp d ++ rb) = true.
+Theorem str_lt_is_units_lt : forall a b, m_str_lt a b = units_lt a b.
 Proof.
-  intros c d ra rb H0 H1 H2. unfold utf8_of_cp.
-  destruct (Z.ltb_spec c 128); destruct (Z.ltb_spec c 2048); destruct (Z.ltb_spec c 65536); try (exfalso; lia);
-  destruct (Z.ltb_spec d 128); destruct (Z.ltb_spec d 2048); destruct (Z.ltb_spec d 65536); try (exfalso; lia);
-  cbn [app units_lt]; ltb_crush.
-Qed.
-
-Lemma utf8_cp_gt : forall c d ra rb, 0 <= d -> d < c -> c <= 0x10FFFF ->
-  units_lt (utf8_of_cp c ++ ra) (utf8_of_cp d ++ rb) = false.
-Proof.
-  intros c d ra rb H0 H1 H2. unfold utf8_of_cp.
-  destruct (Z.ltb_spec c 128); destruct (Z.ltb_spec c 2048); destruct (Z.ltb_spec c 65536); try (exfalso; lia);
-  destruct (Z.ltb_spec d 128); destruct (Z.ltb_spec d 2048); destruct (Z.ltb_spec d 65536); try (exfalso; lia);
-  cbn [app units_lt]; ltb_crush.
-Qed.
-
-Lemma units_lt_prefix : forall p a b, units_lt (p ++ a) (p ++ b) = units_lt a b.
-Proof.
-  induction p as [|x p IH]; intros a b; [reflexivity|].
-  cbn [app units_lt]. rewrite Z.ltb_irrefl. apply IH.
-Qed.
-
-Lemma utf8_of_cp_nonempty : forall c r, exists x t, utf8_of_cp c ++ r = x :: t.
-Proof.
-  intros c r. unfold utf8_of_cp.
-  destruct (c <? 128); [|destruct (c <? 2048); [|destruct (c <? 65536)]]; cbn [app]; eauto.
-Qed.
-
-Theorem utf8_order_is_codepoint_order : forall a b,
-  Forall cp_valid a -> Forall cp_valid b -> units_lt (utf8 a) (utf8 b) = units_lt a b.
-Proof.
-  induction a as [|c a IH]; intros b Ha Hb.
-  - destruct b as [|d b]; [reflexivity|].
-    unfold utf8. cbn [flat_map]. destruct (utf8_of_cp_nonempty d (flat_map utf8_of_cp b)) as [x [t E]].
-    rewrite E. reflexivity.
-  - destruct b as [|d b].
-    + unfold utf8. cbn [flat_map]. destruct (utf8_of_cp_nonempty c (flat_map utf8_of_cp a)) as [x [t E]].
-      rewrite E. reflexivity.
-    + inversion Ha as [|? ? Hc Ha']; inversion Hb as [|? ? Hd Hb']; subst. unfold cp_valid in Hc, Hd.
-      unfold utf8. cbn [flat_map units_lt].
-      destruct (Z.ltb_spec c d).
-      * apply utf8_cp_lt; lia.
-      * destruct (Z.ltb_spec d c).
-        -- apply utf8_cp_gt; lia.
-        -- assert (c = d) by lia. subst d. rewrite units_lt_prefix. apply IH; assumption.
-Qed.
-
-(* strings without a high surrogate are their own code-point sequence *)
-Definition no_high (c : Z) : Prop := 0 <= c <= 0xFFFF /\ (c < 0xD800 \/ 0xDBFF < c).
-
-Lemma code_points_id : forall l, Forall no_high l -> code_points l = l.
-Proof.
-  induction l as [|h l IH]; intro H; [reflexivity|].
-  inversion H as [|? ? [Hr Hh] Hl]; subst. cbn [code_points].
-  destruct (Z.leb_spec 0xD800 h); destruct (Z.leb_spec h 0xDBFF); cbn [andb]; try (exfalso; lia);
-    rewrite (IH Hl); reflexivity.
-Qed.
-
-Lemma no_high_valid : forall l, Forall no_high l -> Forall cp_valid l.
-Proof. intros l H. eapply Forall_impl; [|exact H]. intros c [Hr _]. unfold cp_valid. lia. Qed.
-
-Theorem str_lt_bmp : forall a b, Forall no_high a -> Forall no_high b -> m_str_lt a b = units_lt a b.
-Proof.
-  intros a b Ha Hb. unfold m_str_lt. rewrite (code_points_id a Ha), (code_points_id b Hb).
-  apply utf8_order_is_codepoint_order; apply no_high_valid; assumption.
-Qed.
-
-(* in general otto's order is the code-point order of the decoded strings *)
-Definition unit_ok (u : Z) : Prop := 0 <= u <= 0xFFFF.
-
-Lemma code_points_valid : forall n l, (length l <= n)%nat -> Forall unit_ok l -> Forall cp_valid (code_points l).
-Proof.
-  induction n as [|n IH]; intros l Hlen Hl.
-  - destruct l; [constructor | cbn in Hlen; lia].
-  - destruct l as [|h l]; [constructor|].
-    inversion Hl as [|? ? Hh Hl']; subst. unfold unit_ok in Hh. cbn [code_points]. cbn [length] in Hlen.
-    destruct (Z.leb_spec 0xD800 h); destruct (Z.leb_spec h 0xDBFF); cbn [andb].
-    + destruct l as [|lo l2].
-      * constructor; [unfold cp_valid; lia | constructor].
-      * inversion Hl' as [|? ? Hlo Hl2]; subst. unfold unit_ok in Hlo. cbn [length] in Hlen.
-        destruct (Z.leb_spec 0xDC00 lo); destruct (Z.leb_spec lo 0xDFFF); cbn [andb].
-        -- constructor; [unfold cp_valid; lia | apply IH; [lia | assumption]].
-        -- constructor; [unfold cp_valid; lia | apply IH; [cbn [length]; lia | assumption]].
-        -- constructor; [unfold cp_valid; lia | apply IH; [cbn [length]; lia | assumption]].
-        -- constructor; [unfold cp_valid; lia | apply IH; [cbn [length]; lia | assumption]].
-    + constructor; [unfold cp_valid; lia | apply IH; [lia | assumption]].
-    + constructor; [unfold cp_valid; lia | apply IH; [lia | assumption]].
-    + constructor; [unfold cp_valid; lia | apply IH; [lia | assumption]].
-Qed.
-
-Theorem str_lt_is_codepoint_order : forall a b, Forall unit_ok a -> Forall unit_ok b ->
-  m_str_lt a b = units_lt (code_points a) (code_points b).
-Proof.
-  intros a b Ha Hb. unfold m_str_lt.
-  apply utf8_order_is_codepoint_order; eapply code_points_valid; eauto.
+  unfold m_str_lt.
+  induction a as [|x a IH]; intros b.
+  - destruct b; reflexivity.
+  - destruct b as [|y b]; [reflexivity|].
+    cbn [skip_common units_lt].
+    destruct (Z.eqb_spec x y) as [->|Hne].
+    + rewrite Z.ltb_irrefl. apply IH.
+    + destruct (Z.ltb_spec x y); [reflexivity|].
+      destruct (Z.ltb_spec y x); [reflexivity | lia].
 Qed.
